@@ -13,7 +13,10 @@ RULE = ("grid cases: every pair of direction algorithm {ico,cube3D,randomS,zero}
         "n_b,n_o in 1..9 (thorough: the whole 9x9 box per pair twice, plus n_o up to 42 / n_b up to 24, fulldiv_40), n_t in 1..4, radial grid as list/tuple "
         "literal (unsorted), linspace(..) or range(..), name spellings 'alg_N' / 'N_alg' / 'N' / 'zero'; per grid the two index "
         "helpers with None and with 3-4 index arrays (sorted subset, repeats in random order, negative indices, empty, "
-        "out of range); rare branches: negative radius (AssertionError), zero radius, duplicate / 1e-9-close radii. "
+        "out of range); rare branches: negative radius (AssertionError), zero radius, duplicate / 1e-9-close radii; radial grids clustered "
+        "around 0.1 / 1 / 10 Angstrom with offsets log-uniform over 1e-9..1e-2 A (1-4 shells, gaps > 1e-7 A, incl. exactly 1.0 A), "
+        "where tolerances of shared helpers can bite; extreme magnitudes (first radius 1e-9..1e-2 A before ordinary shells, "
+        "radii of 1e3..1e5 A). "
         "decomp cases: synthetic N x 7 arrays for from_full_array_to_o_b_t with shuffled rows, exact duplicates and copies "
         "perturbed below the 1e-8 rounding (first occurrence must be kept, un-rounded). pos cases: _t_and_o_2_positions on "
         "random arrays, both branches. A grid case is non-trivial when n_b*n_o*n_t >= 2; distinct by (names, radii, index arrays)")
@@ -66,6 +69,37 @@ def radial(rng, nt, special=None):
         vals = [base, base + rng.choice([0.0, 4e-11, 2e-10, 5e-9, 3e-8, 1e-6])] + [round(rng.uniform(2.1, 3.0), 3) for _ in range(max(nt - 2, 0))]
         rng.shuffle(vals)
         return repr(vals), vals, "close_radii"
+    if special == "cluster":
+        # radii whose Angstrom values cluster around 0.1 / 1 / 10 A, where tolerances of shared helpers (np.allclose,
+        # np.isclose, rounding) can bite: offsets log-uniform over 1e-9 .. 1e-2 A, both signs, mutual gaps > 1e-7 A so that
+        # the decomposition stays defined; sometimes the exact centre is one of the shells or the only shell
+        import math
+        centre = rng.choice([1.0, 1.0, 1.0, 0.1, 10.0])
+        if rng.random() < 0.12:
+            ang = [centre]
+        else:
+            ang = [centre] if rng.random() < 0.35 else []
+            while len(ang) < max(nt, 1):
+                off = 10 ** rng.uniform(-9, -2) * rng.choice([1, 1, -1])
+                v = centre + off
+                if all(abs(v - w) > 1.5e-7 for w in ang):
+                    ang.append(v)
+        vals = [a / 10.0 for a in ang]
+        rng.shuffle(vals)
+        return repr(vals), vals, "cluster"
+    if special == "extreme":
+        # extreme but valid magnitudes: a first radius log-uniform over 1e-9 .. 1e-2 A followed by ordinary shells, or very
+        # large radii (1e3 .. 1e5 A); mutual gaps far above 1e-7 A
+        if rng.random() < 0.65:
+            ang = [10 ** rng.uniform(-9, -2)] + sorted(round(rng.uniform(0.5, 30.0), 2) + 0.5 * k for k in range(max(nt - 1, 0)))
+        else:
+            ang = sorted(10 ** rng.uniform(3, 5) for _ in range(max(nt, 1)))
+            ang = [a + 1.0 * k for k, a in enumerate(ang)]
+            if rng.random() < 0.4:
+                ang[0] = round(rng.uniform(0.5, 30.0), 2)
+        vals = [a / 10.0 for a in ang]
+        rng.shuffle(vals)
+        return repr(vals), vals, "extreme"
     form = rng.choice(["list", "list", "list", "tuple", "linspace", "range", "rawfloat"])
     if form == "linspace" and nt >= 2:
         a = round(rng.uniform(0.05, 1.0), 2)
@@ -191,6 +225,10 @@ def cases(ctx):
         for sp in ["negative", "zero", "dup", "dup", "zero", "negative"]:
             yield grid_case(rng, rng.choice(ALG3), rng.randint(2, 6), rng.choice(ALG4), rng.randint(2, 6), rng.randint(2, 3), sp)
         yield grid_case(rng, "ico", 5, "cube4D", 9, 2)
+        for _ in range(40):
+            yield grid_case(rng, rng.choice(ALG3), rng.randint(1, 8), rng.choice(ALG4), rng.randint(1, 4), rng.randint(1, 4), "cluster")
+        for _ in range(30):
+            yield grid_case(rng, rng.choice(ALG3), rng.randint(1, 8), rng.choice(ALG4), rng.randint(1, 4), rng.randint(1, 4), "extreme")
         nd, npos = 150, 80
     else:
         for rep in range(2):
@@ -207,6 +245,10 @@ def cases(ctx):
             yield grid_case(rng, o_alg, rng.randint(2, 5), "fulldiv", 40, rng.randint(1, 2))
         for sp in ["negative", "zero", "dup"] * 20:
             yield grid_case(rng, rng.choice(ALG3), rng.randint(1, 6), rng.choice(ALG4), rng.randint(1, 6), rng.randint(2, 4), sp)
+        for _ in range(400):
+            yield grid_case(rng, rng.choice(ALG3), rng.randint(1, 9), rng.choice(ALG4), rng.randint(1, 6), rng.randint(1, 4), "cluster")
+        for _ in range(300):
+            yield grid_case(rng, rng.choice(ALG3), rng.randint(1, 9), rng.choice(ALG4), rng.randint(1, 6), rng.randint(1, 4), "extreme")
         nd, npos = 2000, 800
     for i in range(nd):
         yield decomp_case(ctx, rng, i)
@@ -288,7 +330,8 @@ def near_tie(values):
     if v.size == 0:
         return False
     f = v - np.floor(v)
-    return bool(np.any(np.abs(f - 0.5) < 1e-6))
+    # the float product x*1e8 carries a relative error of ~1e-16: widen the margin for large numbers
+    return bool(np.any(np.abs(f - 0.5) < 1e-6 + v * 2e-15))
 
 
 def decomp_ops(arr, norms):
